@@ -311,11 +311,14 @@ def build_grown(spec, rng, theta, k, backend="lambda"):
         m.eventRateVector(x, 0.3)
         m.transitionMean(x, 0.3)
     rest = st[k:]
-    if rng.random() < 0.5:
+    r_ = rng.random()
+    if r_ < 0.3:
         m.state_list = list(rest)
+    elif r_ < 0.45:
+        m.state_list = " ".join(rest)          # a bare string of names
     else:
         for s_ in rest:
-            m.state_list = s_ if rng.random() < 0.5 else [s_]
+            m.state_list = s_ if rng.random() < 0.6 else [s_]
     for j in later:
         if rng.random() < 0.6:
             m.add_event(mk(spec["events"][j]))
